@@ -168,6 +168,7 @@ type SMInst struct {
 	Updates   uint64
 	Dead      func() bool
 	importChecked bool
+	DurableIndex uint64 // on-disk SM: index of the last entry its durable image contains
 }
 
 func (i *SMInst) enter(m string) { i.env.SMEnter(i, m) }
@@ -334,6 +335,7 @@ func (s *diskSM) Open(stopc <-chan struct{}) (uint64, error) {
 	}
 	s.i.st = st
 	s.i.Opened = true
+	s.i.DurableIndex = st.applied
 	s.i.OpenIndex = st.applied
 	s.i.env.SMRecovered(s.i, "open", st.applied)
 	return st.applied, nil
@@ -402,7 +404,11 @@ func (s *diskSM) persist() error {
 		return err
 	}
 	defer d.Close()
-	return d.Sync()
+	if err := d.Sync(); err != nil {
+		return err
+	}
+	s.i.DurableIndex = s.i.st.applied
+	return nil
 }
 
 func (s *diskSM) Sync() error {
